@@ -353,6 +353,10 @@ func fieldTypeOf(p *Program, key string) types.Type {
 // checkSelectorDiscipline: a value obtained from a selector call (x.WithPrefixType(k)) denotes the shared object x itself;
 // it must be used before any other selector call on the same object changes the selection.
 func checkSelectorDiscipline(r *Run, sels map[*ssa.Function][]string, fns map[*ssa.Function]bool) {
+	checkSelectorDisciplineAs(r, "C07.selector", sels, fns)
+}
+
+func checkSelectorDisciplineAs(r *Run, rule string, sels map[*ssa.Function][]string, fns map[*ssa.Function]bool) {
 	p := r.P
 	n := 0
 	for _, fn := range sortedFns(fns) {
@@ -431,7 +435,7 @@ func checkSelectorDiscipline(r *Run, sels map[*ssa.Function][]string, fns map[*s
 						continue // chained: a's result is b's receiver
 					}
 					if instrBetween(a.c, b.c, u) {
-						r.Viol("C07.selector", fname(fn), fmt.Sprintf("stale selection: result of %s used after %s on the same store", a.m.Name(), b.m.Name()),
+						r.Viol(rule, fname(fn), fmt.Sprintf("stale selection: result of %s used after %s on the same store", a.m.Name(), b.m.Name()),
 							fmt.Sprintf("%s returns the shared store itself; the value obtained at %s is used at %s after %s at %s re-selected the same store, so the use operates on the later selection",
 								fname(a.m), p.ipos(a.c), p.ipos(u), fname(b.m), p.ipos(b.c)), p.ipos(u), nil)
 					}
@@ -441,7 +445,7 @@ func checkSelectorDiscipline(r *Run, sels map[*ssa.Function][]string, fns map[*s
 	}
 	r.Extra["selector_calls_checked"] = n
 	if n > 0 {
-		r.OK("C07.selector", "", fmt.Sprintf("%d selector calls on the consensus path", n), "no value obtained from a selector call is used after another selection on the same store (except those reported)")
+		r.OK(rule, "", fmt.Sprintf("%d selector calls checked", n), "no value obtained from a selector call is used after another selection on the same store (except those reported)")
 	}
 }
 
